@@ -1035,6 +1035,8 @@ postfixexpr(struct scope *s, struct expr *r)
 				*end = assignexpr(s);
 				if (t->u.func.isvararg && !p)
 					*end = exprpromote(*end);
+				else if (p->type->incomplete)
+					error(&tok.loc, "argument for a parameter of incomplete type");
 				else
 					*end = exprassign(*end, p->type);
 				end = &(*end)->next;
